@@ -339,7 +339,7 @@ func c06r4(r *R) {
 	found := false
 	eachInstr(sc, func(i ssa.Instruction) {
 		al, ok := i.(*ssa.Alloc)
-		if !ok || !strings.HasSuffix(typeName(al.Type()), "hack.TLSClientHelloConn") {
+		if !ok || !allocOfStruct(al, "hack.TLSClientHelloConn") {
 			return
 		}
 		found = true
